@@ -209,11 +209,19 @@ func isNamed(t types.Type, path, name string) bool {
 // "<RootType>.f1.f2" (root variable names do not matter), or "" when the
 // expression is not such a chain. Index expressions render as "[]".
 func (c *Ctx) fieldPath(e ast.Expr) string {
+	fp := c.fieldPathRaw(e)
+	if fp == "" {
+		return fp
+	}
+	return c.lexFieldAlias(fp)
+}
+
+func (c *Ctx) fieldPathRaw(e ast.Expr) string {
 	switch e := e.(type) {
 	case *ast.ParenExpr:
-		return c.fieldPath(e.X)
+		return c.fieldPathRaw(e.X)
 	case *ast.StarExpr:
-		return c.fieldPath(e.X)
+		return c.fieldPathRaw(e.X)
 	case *ast.Ident:
 		t := c.typeOf(e)
 		if t == nil {
@@ -221,13 +229,13 @@ func (c *Ctx) fieldPath(e ast.Expr) string {
 		}
 		return "<" + typeShort(t) + ">"
 	case *ast.SelectorExpr:
-		base := c.fieldPath(e.X)
+		base := c.fieldPathRaw(e.X)
 		if base == "" {
 			return ""
 		}
 		return base + "." + e.Sel.Name
 	case *ast.IndexExpr:
-		base := c.fieldPath(e.X)
+		base := c.fieldPathRaw(e.X)
 		if base == "" {
 			return ""
 		}
